@@ -55,20 +55,97 @@ def handle (cmd : String) (args : List V) : Option V :=
       pure (.int (if canonicalFrom 0 n tbl then 1 else 0))
   | _, _ => none
 
-def handleLine (line : String) : String :=
+/-! container commands: the driver carries one open file -/
+def errName : Err → String
+  | .duplicate => "duplicate" | .full => "full" | .notEncodable => "notEncodable" | .badEntry => "badEntry"
+  | .absent => "absent" | .hole => "hole" | .permission => "permission"
+
+def outV : Outcome → V
+  | .ok => .list [.sym "ok"]
+  | .err e => V.err (errName e)
+
+def entryV (e : Entry) : V :=
+  .list [.int e.typ, .int e.fmt, .int e.off, .int e.size, .int e.cdate, .int e.mdate, .int e.adate, V.ofNats e.comment]
+
+def optPayload : V → Option (Option Bytes)
+  | .sym "none" => some none
+  | .hex b => some (some b)
+  | _ => none
+
+def optStr : V → Option (Option Str)
+  | .sym "none" => some none
+  | v => (v.nats?).map some
+
+def blkArg? : List V → Option BlkArg
+  | [typ, fmt, size, pl, cd, md] => do
+    some ⟨← typ.nat?, ← fmt.nat?, ← size.nat?, ← optPayload pl, ← cd.int?, ← md.int?⟩
+  | _ => none
+
+def fileCheck (file : Bytes) : V :=
+  match decTable.runM file with
+  | none => V.err "unreadable"
+  | some ((h, es), m, _) =>
+    .list [.sym "ok", .int (if wfB file then 1 else 0), .int (if compactB file then 1 else 0),
+           .int (if typesNodupB file then 1 else 0),
+           .list [.int h.version, .int h.nEntries, .int h.cdate, .int h.mdate, .int h.adate],
+           .list (es.map entryV), .hex (Wire.maskBytes m)]
+
+def handleSt (st : Option TdfSt) (cmd : String) (args : List V) : Option (Option TdfSt × V) :=
+  match cmd, args with
+  | "tdf.load", [b] => do
+      let b ← b.bytes?
+      match openFile b with
+      | some s => pure (some s, V.list [.sym "ok", .int s.nEntries])
+      | none => pure (none, V.err "unreadable")
+  | "tdf.add", [blk, comment, now] => do
+      let s ← st; let b ← blkArg? (← blk.list?); let c ← comment.nats?; let now ← now.int?
+      let (s', o) := addBlock s b c now
+      pure (some s', outV o)
+  | "tdf.remove", [t, now] => do
+      let s ← st; let t ← t.nat?; let now ← now.int?
+      let (s', o) := removeBlock s t now
+      pure (some s', outV o)
+  | "tdf.replace", [blk, comment, now] => do
+      let s ← st; let b ← blkArg? (← blk.list?); let c ← optStr comment; let now ← now.int?
+      let (s', o) := replaceBlock s b c now
+      pure (some s', outV o)
+  | "tdf.set", [blk, now] => do
+      let s ← st; let b ← blkArg? (← blk.list?); let now ← now.int?
+      let (s', o) := setBlock s b now
+      pure (some s', outV o)
+  | "tdf.reopen", [] => do
+      let s ← st
+      let (s', o) := step s .reopen
+      pure (some s', outV o)
+  | "tdf.state", [] => do
+      let s ← st
+      pure (st, V.list [.sym "ok", .hex s.view, .int (if s.disk == s.view then 1 else 0), .list (s.entries.map entryV),
+                        .int s.nEntries, .int (lenLive s)])
+  | _, _ => none
+
+def handleLine (st : Option TdfSt) (line : String) : Option TdfSt × String :=
   match V.parse line with
   | some (.list (.sym cmd :: args)) =>
-    match handle cmd args with
-    | some v => v.render
-    | none => "(bad-op)"
-  | _ => "(bad-parse)"
+    if cmd.startsWith "tdf." then
+      match handleSt st cmd args with
+      | some (st', v) => (st', v.render)
+      | none => (st, "(bad-op)")
+    else match cmd, args with
+      | "file.check", [.hex b] => (st, (fileCheck b).render)
+      | "file.new", [.int now] => (st, (V.hex (newFile now)).render)
+      | _, _ =>
+        match handle cmd args with
+        | some v => (st, v.render)
+        | none => (st, "(bad-op)")
+  | _ => (st, "(bad-parse)")
 
-partial def loop (hin hout : IO.FS.Stream) : IO Unit := do
+partial def loop (hin hout : IO.FS.Stream) (st : Option TdfSt) : IO Unit := do
   let line ← hin.getLine
   if line.isEmpty then return ()
-  hout.putStrLn (handleLine line)
+  let (st', out) := handleLine st line
+  hout.putStrLn out
   hout.flush
-  loop hin hout
+  loop hin hout st'
 
 def main : IO Unit := do
-  loop (← IO.getStdin) (← IO.getStdout)
+  loop (← IO.getStdin) (← IO.getStdout) none
